@@ -352,8 +352,12 @@ def _raw(ctx: Ctx, c: Collector) -> None:
         # handlers: no normal way out other than an explicit return of the forward
         g = ctx.cfg(qn)
         normal = g.view(kinds=g.NORMAL)
+        # (only a handler whose try block contains an await can receive the failure of the forward: a handler around the
+        #  synchronous unpacking / rewriting of the request falls through to the forward or to the request's own answer)
+        guarded_awaits = {id(h) for t in ast.walk(fi.node) if isinstance(t, ast.Try) and any(isinstance(x, ast.Await) for b in t.body for x in ast.walk(b))
+                          for h in t.handlers}
         for n in ast.walk(fi.node):
-            if not isinstance(n, ast.ExceptHandler):
+            if not isinstance(n, ast.ExceptHandler) or id(n) not in guarded_awaits:
                 continue
             try:
                 hk = g.key(n)
